@@ -1505,7 +1505,13 @@ fn main() {
         let mut rt = 1_000_000_000u64;
         for i in 0..n {
             rt += rng.below(1_000_000);
-            let (m, t) = gen_traffic(&mut rng, i as u32, rt, (i * 10) as u32);
+            let (mut m, t) = gen_traffic(&mut rng, i as u32, rt, (i * 10) as u32);
+            // fields a decoder has no business with: lifecycle id, an already present text, message counter
+            m.lifecycle = rng.below(4) as u32;
+            if rng.chance(1, 6) {
+                m.payload_text = Some("already decoded".into());
+            }
+            m.standard_header.len = rng.below(3) as u16 * 100;
             ms.push(m);
             tg.push(t);
         }
